@@ -13,22 +13,32 @@ import MdkVerif.Props.C08
   Vocabulary (Proofs/Chain.lean):
     `run nx c l`            deliver the list `l` to client `c`, one event after the other (`run_def`)
     `AtFork c T`            `c` is at the parent state of the fork with commit set `T`, as a bystander
-                            (`Siblings c T`) or as one of the committers (its staged commit is in `T`)
+                            (`Siblings c T`) or as one of the committers (its staged commit is in `T`); the client
+                            is active and its record's nostr group id is the extension's (`recNid = nid`)
     `IsMin w T`             `w ∈ T` precedes every other element of `T` in the MIP-03 order
     `Covers T l`            `l` is a list over `T` — any order, any repetition — containing all of `T`
     `Level = (w, S)`        one level of a chain: the set `S` of competing commits and its MIP-03 minimum
-    `ChainEv id adm p Ls`   conditions on the EVENTS of a chain that starts in the state with path `p`:
-                            level k+1 was created in the state reached by the winners of levels 1..k
+    `Core`, `core g`        (path, members, group data) of a group state; `coreStep k w` applies a commit to it
+                            (`dataAfter`: a data commit carries the WHOLE new extension — name, description,
+                            admins, relays, nostr group id; `membersAfter`: leavers removed, members added)
+    `ChainEv id k Ls`       conditions on the EVENTS of a chain that starts in the state with core `k`:
+                            level j+1 was created in the state reached by the winners of levels 1..j, is
+                            authorised by the admins THAT state has, carries that state's id as its `h` tag,
+                            does not rotate the id and does not remove client `id` (`LevelEv`)
     `LevelWise Ls ls`       a level-by-level schedule: `ls = [l₁, …, lₙ]`, `Covers Sₖ lₖ`
     `childOfG mp g w`       the group state after commit `w` on parent state `g`; `chainG` iterates it
-    `SameParent g g'`       the fields of a parent state a child depends on (not: pending commit, queued
+    `SameParent g g'`       the fields of a parent state a child depends on (path, members, group data, ensured
+                            secrets, past states, last-message pointer, activity — not: pending commit, queued
                             proposals, stored record, consumed ratchet generations)
     `wc g []`               `g` with the list of consumed ratchet generations blanked (as in C01Fork)
 
   Hypothesis of every theorem here, and the reason the property is only PARTIAL: LEVEL-BY-LEVEL delivery
   (no event of level k+1 is offered before the client has been offered all of level k) and EVERY client
   is offered EVERY sibling of every level.  The statement for every schedule is `C01_full`; it is false
-  of the code (`C01_full_false`).
+  of the code (`C01_full_false`).  Since the client model was widened (DESIGN §13.8) the fork theorems
+  also exclude a commit that rotates the nostr group id (`h-rotation-in-flight`,
+  `C01Fork.single_fork_any_id_full_false`) or removes the receiver (`evicted-by-losing-commit`,
+  `C01Fork.single_fork_any_target_full_false`), and so do `ChainEv` / `AtFork` / `ChildOf` here.
 -/
 namespace MdkVerif.Props.C01Chain
 open MdkVerif MdkVerif.Client MdkVerif.Fork MdkVerif.Chain MdkVerif.Props.C01Fork
@@ -37,21 +47,26 @@ theorem run_def (nx : Nat) (c : Cl) (l : List Ev) : run nx c l = l.foldl (fun c 
 
 /-! ### the running example: a group of four (admins 0, 1, 3), three levels of forks
 
-  level 1, created in the start state (path []):      A (by 1, ts 20), B (by 0, ts 19 id 9), C (by 3, ts 19 id 11)  — B wins
-  level 2, created in the state reached by B ([2]):   fA (by 0, ts 30), fB (by 3, ts 29, sets the name to 7)        — fB wins
-  level 3, created in the state reached by fB ([2,5]): gA (by 3, sets the name to 9)
-  client 2 is a bystander of all levels; client 1 is the committer of A (staged, applied on relay echo). -/
+  level 1, created in the start state (path []):      A (by 1, ts 20), B (by 0, ts 19 id 9: name 4, admins {0,3} — demotes 1),
+                                                      C (by 3, ts 19 id 11: name 5)                                  — B wins
+  level 2, created in the state reached by B ([2]):   fA (by 0, ts 30), fB (by 3, ts 29: name 7)                     — fB wins
+  level 3, created in the state reached by fB ([2,5]): gA (by 3: name 9, description 6)
+  (levels 2 and 3 are authorised by the admin set B left: {0,3})
+  client 2 is a bystander of all levels; client 1 is the committer of A (staged, applied on relay echo).
+  All events carry the `h` tag 0 = the nostr group id chosen at creation; no commit rotates it or removes 1 or 2. -/
 
+def d0 : GData := initData [0, 1, 3] 1
+def dB : GData := { d0 with name := 4, admins := [0, 3] }
 def b2 : Cl := initCl 2 false 5 [0, 1, 2, 3] [0, 1, 3] 1
 def k1 : Cl := (stageCommit (initCl 1 false 5 [0, 1, 2, 3] [0, 1, 3] 1) 1 20 7 .selfUpdate false).1
 def eA : Ev := { n := 1, ts := 20, idnum := 7, cipher := 1, sender := 1, path := [], kind := .commit .selfUpdate [] }
-def eB : Ev := { n := 2, ts := 19, idnum := 9, cipher := 2, sender := 0, path := [], kind := .commit (.setName 4) [] }
-def eC : Ev := { n := 3, ts := 19, idnum := 11, cipher := 3, sender := 3, path := [], kind := .commit (.setName 5) [] }
+def eB : Ev := { n := 2, ts := 19, idnum := 9, cipher := 2, sender := 0, path := [], kind := .commit (.setData dB) [] }
+def eC : Ev := { n := 3, ts := 19, idnum := 11, cipher := 3, sender := 3, path := [], kind := .commit (.setData { d0 with name := 5 }) [] }
 def fA : Ev := { n := 4, ts := 30, idnum := 5, cipher := 4, sender := 0, path := [2], kind := .commit .selfUpdate [] }
-def fB : Ev := { n := 5, ts := 29, idnum := 8, cipher := 5, sender := 3, path := [2], kind := .commit (.setName 7) [] }
-def gA : Ev := { n := 6, ts := 40, idnum := 2, cipher := 6, sender := 3, path := [2, 5], kind := .commit (.setName 9) [] }
+def fB : Ev := { n := 5, ts := 29, idnum := 8, cipher := 5, sender := 3, path := [2], kind := .commit (.setData { dB with name := 7 }) [] }
+def gA : Ev := { n := 6, ts := 40, idnum := 2, cipher := 6, sender := 3, path := [2, 5], kind := .commit (.setData { dB with name := 9, desc := 6 }) [] }
 /-- a child of the loser A (created on the branch [1], which the client leaves for good at level 1) -/
-def hA : Ev := { n := 7, ts := 25, idnum := 1, cipher := 7, sender := 3, path := [1], kind := .commit (.setName 8) [] }
+def hA : Ev := { n := 7, ts := 25, idnum := 1, cipher := 7, sender := 3, path := [1], kind := .commit (.setData { d0 with name := 8 }) [] }
 def T1 : List Ev := [eA, eB, eC]
 def later : List Level := [(fB, [fA, fB]), (gA, [gA])]
 def chain3 : List Level := (eB, T1) :: later
@@ -60,33 +75,29 @@ theorem b2_secrets : SecretsOK b2.g := by intro ep q h; simp [b2, initCl, initG,
 theorem b2_below : Below b2 := by intro s hs; cases hs
 theorem k1_below : Below k1 := by intro s hs; cases hs
 
-theorem later_chain (id : Nat) (hid : id ≠ 0 ∧ id ≠ 3) : ChainEv id [0, 1, 3] [2] later := by
-  obtain ⟨h0, h3⟩ := hid
-  refine ⟨levelEv_of_dec _ _ _ _ (by decide) (by decide) ?_ (by decide) (by decide), by decide, by decide,
-    levelEv_of_dec _ _ _ _ (by decide) (by decide) ?_ (by decide) (by decide), by decide, by decide, trivial⟩
-  · intro e he
-    simp only [List.mem_cons, List.not_mem_nil, or_false] at he
-    rcases he with rfl | rfl
-    · exact fun x => h0 x.symm
-    · exact fun x => h3 x.symm
-  · intro e he
-    simp only [List.mem_cons, List.not_mem_nil, or_false] at he
-    subst he
-    exact fun x => h3 x.symm
+/-- the later levels, for the bystander 2 and for client 1 (the committer of A): conditions on the events only -/
+theorem later_chain2 : ChainEv 2 (coreStep (core b2.g) eB) later :=
+  ⟨levelEv_of_dec _ _ _ (by decide) (by decide) (by decide) (by decide) (by decide) (by decide), by decide, by decide,
+    levelEv_of_dec _ _ _ (by decide) (by decide) (by decide) (by decide) (by decide) (by decide), by decide, by decide, trivial⟩
 
-theorem b2_chain : ChainEv b2.id b2.g.admins b2.g.path chain3 :=
-  ⟨levelEv_of_dec _ _ _ _ (by decide) (by decide) (by decide) (by decide) (by decide), by decide, by decide,
-    later_chain 2 (by decide)⟩
+theorem later_chain1 : ChainEv 1 (coreStep (core b2.g) eB) later :=
+  ⟨levelEv_of_dec _ _ _ (by decide) (by decide) (by decide) (by decide) (by decide) (by decide), by decide, by decide,
+    levelEv_of_dec _ _ _ (by decide) (by decide) (by decide) (by decide) (by decide) (by decide), by decide, by decide, trivial⟩
+
+theorem b2_chain : ChainEv b2.id (core b2.g) chain3 :=
+  ⟨levelEv_of_dec _ _ _ (by decide) (by decide) (by decide) (by decide) (by decide) (by decide), by decide, by decide,
+    later_chain2⟩
 
 theorem b2_atFork : AtFork b2 T1 :=
-  .bystander rfl (by decide) b2_secrets b2_below.noFork
-    (siblings_of_dec b2 T1 (by decide) (by decide) (by decide) (by decide) (by decide) (by decide))
+  .bystander rfl rfl (by decide) b2_secrets b2_below.noFork rfl
+    (siblings_of_dec b2 T1 rfl (by decide) (by decide) (by decide) (by decide) (by decide) (by decide) (by decide))
 
 theorem k1_atFork : AtFork k1 T1 := by
   obtain ⟨ho, hsec, hm, _⟩ := stage_own_commit (initCl 1 false 5 [0, 1, 2, 3] [0, 1, 3] 1) 1 20 7 .selfUpdate false eA
-    (by decide) (by intro ep q h; simp [initCl, initG, alookup] at h) (by intro s hs; cases hs) (by decide)
-  exact .committer eA [eB, eC] rfl (by decide) hsec hm ho
-    (siblings_of_dec k1 [eB, eC] (by decide) (by decide) (by decide) (by decide) (by decide) (by decide))
+    (by decide) (by intro ep q h; simp [initCl, initG, alookup] at h) (by intro s hs; cases hs)
+    (by intro d hd; cases hd) (by decide) (by decide)
+  exact .committer eA [eB, eC] rfl rfl (by decide) hsec hm rfl ho
+    (siblings_of_dec k1 [eB, eC] rfl (by decide) (by decide) (by decide) (by decide) (by decide) (by decide) (by decide))
     (by decide) (fun e => Iff.rfl)
 
 /-! ### 1. many clients, one fork -/
@@ -145,22 +156,28 @@ example : (run 0 b2 [eA, eC, eA]).g.path = (run 0 k1 [eC, eA]).g.path :=
     (by decide) (by decide) (by intro e; simp [or_comm]) (by decide)
   h
 
-/-- the corollaries the property text names: same epoch, same MLS state, same member set, same group data -/
+/-- the corollaries the property text names: same epoch, same MLS state, same member set, same group data — the
+    WHOLE group data (name, description, admins, relays, nostr group id), the same stored record (all six
+    fields), no pending commit or proposals left, and both clients still active -/
 theorem fork_agree_data (c1 c2 : Cl) (T l1 l2 : List Ev) (nx1 nx2 : Nat)
     (h1 : AtFork c1 T) (h2 : AtFork c2 T) (hp : SameParent c1.g c2.g) (hmp : c1.maxPast = c2.maxPast)
     (hl1 : Covers T l1) (hl2 : Covers T l2) (hne : T ≠ []) :
     epochOf (run nx1 c1 l1).g.path = epochOf (run nx2 c2 l2).g.path ∧
     (run nx1 c1 l1).g.path = (run nx2 c2 l2).g.path ∧
     (run nx1 c1 l1).g.members = (run nx2 c2 l2).g.members ∧
-    (run nx1 c1 l1).g.admins = (run nx2 c2 l2).g.admins ∧
-    (run nx1 c1 l1).g.name = (run nx2 c2 l2).g.name ∧
+    dataOf (run nx1 c1 l1).g = dataOf (run nx2 c2 l2).g ∧
     (run nx1 c1 l1).g.recEpoch = (run nx2 c2 l2).g.recEpoch ∧
     (run nx1 c1 l1).g.recName = (run nx2 c2 l2).g.recName ∧
+    (run nx1 c1 l1).g.recAdmins = (run nx2 c2 l2).g.recAdmins ∧
+    (run nx1 c1 l1).g.recDesc = (run nx2 c2 l2).g.recDesc ∧
+    (run nx1 c1 l1).g.recRelays = (run nx2 c2 l2).g.recRelays ∧
+    (run nx1 c1 l1).g.recNid = (run nx2 c2 l2).g.recNid ∧
     (run nx1 c1 l1).g.pending = (run nx2 c2 l2).g.pending ∧
-    (run nx1 c1 l1).g.props = (run nx2 c2 l2).g.props := by
+    (run nx1 c1 l1).g.props = (run nx2 c2 l2).g.props ∧
+    (run nx1 c1 l1).g.active = (run nx2 c2 l2).g.active := by
   obtain ⟨w, _, _, hpath, hg⟩ := fork_agree c1 c2 T l1 l2 nx1 nx2 h1 h2 hp hmp hl1 hl2 hne
-  obtain ⟨_, f2, f3, f4, f5, f6, _, f8, f9, _⟩ := wc_fields hg
-  exact ⟨by rw [hpath], hpath, f2, f3, f4, f5, f6, f8, f9⟩
+  obtain ⟨_, f2, f3, f4, f5, f6, f7, f8, f9, f10, f11, _, _, _, f15⟩ := wc_fields hg
+  exact ⟨by rw [hpath], hpath, f2, f3, f4, f5, f6, f7, f8, f9, f10, f11, f15⟩
 
 /-- the same for clients that share only the CORE of the parent state (MLS path, members, admins, name):
     nothing is assumed about stored exporter secrets, retained past epochs, the last-message pointer or
@@ -218,10 +235,12 @@ example : (run 0 b2 [eA, eC, eA, eB]).g.path = [2] ∧ (run 0 k1 [eB, eA, eC, eA
     (run 0 k1 [eA, eC, eB, eA]).g.pending = none := by decide
 
 example : (run 0 b2 [eA, eC, eA, eB]).g.members = (run 0 k1 [eB, eA, eC, eA]).g.members ∧
-    (run 0 b2 [eA, eC, eA, eB]).g.name = (run 0 k1 [eB, eA, eC, eA]).g.name := by
-  obtain ⟨_, _, h3, _, h5, _⟩ := fork_agree_data b2 k1 T1 [eA, eC, eA, eB] [eB, eA, eC, eA] 0 0 b2_atFork k1_atFork
+    dataOf (run 0 b2 [eA, eC, eA, eB]).g = dataOf (run 0 k1 [eB, eA, eC, eA]).g := by
+  obtain ⟨_, _, h3, h4, _⟩ := fork_agree_data b2 k1 T1 [eA, eC, eA, eB] [eB, eA, eC, eA] 0 0 b2_atFork k1_atFork
     (by constructor <;> decide) rfl (by decide) (by decide) (by decide)
-  exact ⟨h3, h5⟩
+  exact ⟨h3, h4⟩
+
+example : dataOf (run 0 k1 [eB, eA, eC, eA]).g = dB := by decide
 
 example : ∃ w, IsMin w T1 ∧ core (run 0 k1 [eB, eA, eC, eA]).g = coreStep (core b2.g) w :=
   let ⟨w, hw, _, h2⟩ := fork_agree_core b2 k1 T1 [eA, eC, eA, eB] [eB, eA, eC, eA] 0 0 b2_atFork k1_atFork (by decide)
@@ -280,6 +299,10 @@ theorem consMono_reachable (id : Nat) (p : Bool) (r : Nat) (ms as : List Nat) (n
       | deliver e nx => exact (cstep_deliverN 3 nx c e h).inv
       | send n ts idn mid mts tok => exact consMono_send c n ts idn mid mts tok h
       | stage n ts idn b na => exact consMono_stageCommit c n ts idn b na h
+      | data n ts idn u => exact consMono_updateData c n ts idn u h
+      | remove n ts idn who => exact consMono_removeMembers c n ts idn who h
+      | add n ts idn who => exact consMono_addMembers c n ts idn who h
+      | join mp g e => exact consMono_join c _ h
       | leave n ts idn => exact consMono_leave c n ts idn h
       | merge => exact consMono_merge c h
       | clear => exact consMono_clear c h
@@ -302,25 +325,28 @@ example : ConsMono (run 0 b2 [eA]) ∧ ∀ x ∈ (deliver (run 0 b2 [eA]) eB 0).
   exact ⟨h1, (consumed_frame 3 0 _ eB h1).1⟩
 
 /-- after a fork level (any role, any delivery list over the fork) the per-client hypotheses of the
-    single-fork theorems hold again, one epoch later: group present, retention, stored secrets following
-    the path, no snapshot of the NEW epoch (or a later one) -/
-theorem fork_restores (c : Cl) (T l : List Ev) (nx : Nat) (hat : AtFork c T) (hsec : SecretsOK c.g) (hb : Below c)
+    single-fork theorems hold again, one epoch later: group present and still ACTIVE, retention, stored secrets
+    following the path, no snapshot of the NEW epoch (or a later one), the stored record in step with the MLS
+    state (so `recNid = nid`), the id in force where it was; path, members and group data are those of a delivered
+    commit applied to the parent's (`coreStep`; the admins may have changed — a data commit carries them) -/
+theorem fork_restores (c : Cl) (T l : List Ev) (nx : Nat) (hat : AtFork c T) (hb : Below c)
     (hl : ∀ e ∈ l, e ∈ T) (hne : l ≠ []) :
-    (run nx c l).hasGroup = true ∧ 1 ≤ (run nx c l).retention ∧ SecretsOK (run nx c l).g ∧ Below (run nx c l) ∧
+    (run nx c l).hasGroup = true ∧ (run nx c l).g.active = true ∧ 1 ≤ (run nx c l).retention ∧
+    SecretsOK (run nx c l).g ∧ Below (run nx c l) ∧
     NoForkSnapshot (run nx c l) ∧ (run nx c l).id = c.id ∧ (run nx c l).maxPast = c.maxPast ∧
-    (run nx c l).g.admins = c.g.admins ∧ epochOf (run nx c l).g.path = epochOf c.g.path + 1 ∧
+    Synced (run nx c l).g ∧ (run nx c l).g.recNid = (run nx c l).g.nid ∧ (run nx c l).g.recNid = c.g.recNid ∧
+    (∃ w ∈ l, core (run nx c l).g = coreStep (core c.g) w) ∧
+    epochOf (run nx c l).g.path = epochOf c.g.path + 1 ∧
     (∀ x ∈ (run nx c l).g.consumed, x ∈ c.g.consumed ∨ ∃ e ∈ T, e.cipher = x) := by
-  obtain ⟨w, _, _, hd⟩ := fork_level c T l nx hat hl hne
-  exact ⟨hd.form.hg, by rw [hd.form.ret]; exact hd.base.ret, hd.secrets hsec, hd.below hb, (hd.below hb).noFork,
-    hd.form.id, hd.form.mp, hd.admins, hd.epoch, hd.cons⟩
+  obtain ⟨w, hw, _, hd⟩ := fork_level c T l nx hat hl hne
+  exact ⟨hd.form.hg, hd.active, by rw [hd.form.ret]; exact hd.base.ret, hd.secrets (atFork_secrets hat), hd.below hb,
+    (hd.below hb).noFork, hd.form.id, hd.form.mp, hd.synced, hd.recNid, hd.keptId, ⟨w, hw, hd.core⟩, hd.epoch, hd.cons⟩
 
 /-- non-vacuity of `fork_restores` -/
-example : SecretsOK (run 0 k1 [eA, eC, eB, eA]).g ∧ NoForkSnapshot (run 0 k1 [eA, eC, eB, eA]) := by
-  obtain ⟨_, _, h3, _, h5, _⟩ := fork_restores k1 T1 [eA, eC, eB, eA] 0 k1_atFork
-    (by cases k1_atFork with
-        | bystander _ _ hs _ _ => exact hs
-        | committer _ _ _ _ hs _ _ _ _ _ => exact hs) k1_below (by decide) (by decide)
-  exact ⟨h3, h5⟩
+example : SecretsOK (run 0 k1 [eA, eC, eB, eA]).g ∧ NoForkSnapshot (run 0 k1 [eA, eC, eB, eA]) ∧
+    (run 0 k1 [eA, eC, eB, eA]).g.active = true := by
+  obtain ⟨_, h2, _, h4, _, h6, _⟩ := fork_restores k1 T1 [eA, eC, eB, eA] 0 k1_atFork k1_below (by decide) (by decide)
+  exact ⟨h4, h6, h2⟩
 
 /-- `deliver_frame` at work: the loser A's record (EpochInvalidated, epoch 2) after level 1 survives the
     rollbacks of level 2 -/
@@ -329,30 +355,35 @@ example : (getRec (run 0 b2 [eA, eB]) 1).map (·.state) = some 4 ∧
 
 /-! ### 3. a chain of forks, one client -/
 
-theorem chainEv_foreign {id : Nat} {adm : List Nat} : ∀ {Ls : List Level} {p : Path}, ChainEv id adm p Ls →
+theorem chainEv_foreign {id : Nat} : ∀ {Ls : List Level} {k : Core}, ChainEv id k Ls →
     ∀ L ∈ Ls, ∀ e ∈ L.2, e.sender ≠ id := by
   intro Ls
   induction Ls with
-  | nil => intro p _ L hL; cases hL
+  | nil => intro k _ L hL; cases hL
   | cons L0 rest ih =>
-    intro p h L hL e he
+    intro k h L hL e he
     obtain ⟨hlev, _, _, hrest⟩ := h
     rcases List.mem_cons.mp hL with rfl | hL'
     · exact hlev.foreign e he
     · exact ih hrest L hL' e he
 
-/-- **chain_bystander**.  A client (group present, retention ≥ 1, stored secrets following the path, no
-    snapshot of the current or a later epoch) and a chain of forks `Ls = [(w₁,S₁), …, (wₙ,Sₙ)]` starting
-    at its state: `S₁` are sibling commits created in the client's state, `S_{k+1}` are commits created
-    in the state reached by the MIP-03 minima `w₁ … w_k`, each by an admin or as a pure self-update, all
-    foreign, with distinct event numbers and ciphertexts (globally) and MIP-03 keys (per level), all unseen
-    and unconsumed at the START.  For EVERY level-by-level schedule — per level any order, any
-    repetition, every sibling at least once — the client ends on the path of the winners, with the
-    winners' commits applied in order, every winner's record ProcessedCommit, every loser blocked.
-    The per-client conditions of the later levels are derived, not assumed. -/
+/-- **chain_bystander**.  A client (group present and active, retention ≥ 1, stored secrets following the
+    path, no snapshot of the current or a later epoch, the id in force = the extension's id) and a chain of
+    forks `Ls = [(w₁,S₁), …, (wₙ,Sₙ)]` starting at its state: `S₁` are sibling commits created in the
+    client's state, `S_{k+1}` are commits created in the state reached by the MIP-03 minima `w₁ … w_k`, each
+    by an admin OF THAT STATE (the admin set may change along the chain: `coreStep`) or as a pure self-update,
+    all foreign, tagged with the nostr group id (which no commit of the chain rotates), none removing the
+    receiver, with distinct event numbers and ciphertexts (globally) and MIP-03 keys (per level), all unseen
+    and unconsumed at the START — `ChainEv` is a condition on the EVENTS and the core of the start state.
+    For EVERY level-by-level schedule — per level any order, any repetition, every sibling at least once —
+    the client ends on the path of the winners, with the winners' commits applied in order, every winner's
+    record ProcessedCommit, every loser blocked.  The per-client conditions of the later levels (unseen,
+    unconsumed, secrets, no snapshot of the new epoch, active, record in step, admins, id) are derived, not
+    assumed. -/
 theorem chain_bystander (c : Cl) (Ls : List Level) (ls : List (List Ev)) (nx : Nat)
-    (hg : c.hasGroup = true) (hr : 1 ≤ c.retention) (hsec : SecretsOK c.g) (hbelow : Below c)
-    (hch : ChainEv c.id c.g.admins c.g.path Ls)
+    (hg : c.hasGroup = true) (ha : c.g.active = true) (hr : 1 ≤ c.retention) (hsec : SecretsOK c.g) (hbelow : Below c)
+    (hn : c.g.recNid = c.g.nid)
+    (hch : ChainEv c.id (core c.g) Ls)
     (hu : ∀ e ∈ evs Ls, getRec c e.n = none ∧ e.cipher ∉ c.g.consumed)
     (hw : LevelWise Ls ls) :
     (run nx c ls.flatten).g.path = c.g.path ++ Ls.map (·.1.cipher) ∧
@@ -360,50 +391,61 @@ theorem chain_bystander (c : Cl) (Ls : List Level) (ls : List (List Ev)) (nx : N
     (∀ L ∈ Ls, (getRec (run nx c ls.flatten) L.1.n).map (·.state) = some 2) ∧
     (∀ L ∈ Ls, ∀ e ∈ L.2, e ≠ L.1 →
       ∃ r, getRec (run nx c ls.flatten) e.n = some r ∧ (r.state = 3 ∨ r.state = 4)) := by
-  have h := chain_rest nx Ls c ls ⟨hg, hr, hsec, hbelow⟩ hch hu hw
+  have h := chain_rest nx Ls c ls ⟨hg, ha, hr, hsec, hbelow, hn⟩ hch hu hw
   exact ⟨h.path, h.g, h.win, fun L hL e he hne => h.lose L hL e he hne (chainEv_foreign hch L hL e he)⟩
 
-/-- epoch, members, admins and name after the chain: the winners' commits applied in order to the core of
-    the start state (`coreStep`: path extended, leavers removed, name set) -/
+/-- epoch, members and the WHOLE group data (name, description, admins, relays, nostr group id) after the
+    chain: the winners' commits applied in order to the core of the start state (`coreStep`: path extended,
+    leavers removed / members added, a data commit replaces the extension); the client is still active, its
+    stored record is in step with that state, and the id in force is where it was -/
 theorem chain_bystander_data (c : Cl) (Ls : List Level) (ls : List (List Ev)) (nx : Nat)
-    (hg : c.hasGroup = true) (hr : 1 ≤ c.retention) (hsec : SecretsOK c.g) (hbelow : Below c)
-    (hch : ChainEv c.id c.g.admins c.g.path Ls)
+    (hg : c.hasGroup = true) (ha : c.g.active = true) (hr : 1 ≤ c.retention) (hsec : SecretsOK c.g) (hbelow : Below c)
+    (hn : c.g.recNid = c.g.nid)
+    (hch : ChainEv c.id (core c.g) Ls)
     (hu : ∀ e ∈ evs Ls, getRec c e.n = none ∧ e.cipher ∉ c.g.consumed)
     (hw : LevelWise Ls ls) :
     core (run nx c ls.flatten).g = (Ls.map (·.1)).foldl coreStep (core c.g) ∧
+    dataOf (run nx c ls.flatten).g = ((Ls.map (·.1)).foldl coreStep (core c.g)).2.2 ∧
+    (run nx c ls.flatten).g.members = ((Ls.map (·.1)).foldl coreStep (core c.g)).2.1 ∧
     epochOf (run nx c ls.flatten).g.path = epochOf c.g.path + Ls.length ∧
-    (run nx c ls.flatten).g.admins = c.g.admins := by
-  obtain ⟨hp, hgg, _, _⟩ := chain_bystander c Ls ls nx hg hr hsec hbelow hch hu hw
+    (run nx c ls.flatten).g.active = true ∧
+    (run nx c ls.flatten).g.recNid = (run nx c ls.flatten).g.nid := by
+  have h := chain_rest nx Ls c ls ⟨hg, ha, hr, hsec, hbelow, hn⟩ hch hu hw
   have hc : core (run nx c ls.flatten).g = (Ls.map (·.1)).foldl coreStep (core c.g) := by
-    rw [← core_wc _ [], hgg, core_wc, core_chainG]
-  refine ⟨hc, by rw [hp]; simp [epochOf]; omega, ?_⟩
-  have := congrArg (fun k : Core => k.2.2.1) hc
-  simp only [foldl_coreStep_admins] at this
-  exact this
+    rw [← core_wc _ [], h.g, core_wc, core_chainG]
+  exact ⟨hc, congrArg (fun k : Core => k.2.2) hc, congrArg (fun k : Core => k.2.1) hc,
+    by rw [h.path]; simp [epochOf]; omega, h.ready.act, h.ready.nid⟩
 
-/-- the chain theorem for every client state REACHABLE by any history of API calls (the invariant
-    `HInv` of Proofs/ForkInv.lean discharges the two state hypotheses) -/
+/-- why `ChainEv` threads the admin set: B demotes client 1, so a data commit by 1 created in B's state is refused
+    (`CommitFromNonAdmin`) although 1 was an admin of the start state; by 3 (still an admin) it is applied -/
+example : (deliver (run 0 b2 [eB]) { fB with sender := 1 } 0).2 = .err eNonAdmin ∧
+    (deliver (run 0 b2 [eB]) fB 0).2 = .commit ∧ (run 0 b2 [eB]).g.admins = [0, 3] := by decide
+
+/-- the chain theorem for every client state REACHABLE by any history of API calls (the invariants
+    `HInv` of Proofs/ForkInv.lean and `C08.sync_inv` discharge the state hypotheses; what remains is the
+    group's presence and activity, the retention value and the event conditions) -/
 theorem chain_reachable (id : Nat) (p : Bool) (r : Nat) (ms as : List Nat) (name : Nat) (ops : List C08.COp)
     (Ls : List Level) (ls : List (List Ev)) (nx : Nat)
     (hg : (ops.foldl C08.cstep (initCl id p r ms as name)).hasGroup = true)
+    (ha : (ops.foldl C08.cstep (initCl id p r ms as name)).g.active = true)
     (hr : 1 ≤ (ops.foldl C08.cstep (initCl id p r ms as name)).retention)
-    (hch : ChainEv (ops.foldl C08.cstep (initCl id p r ms as name)).id (ops.foldl C08.cstep (initCl id p r ms as name)).g.admins
-      (ops.foldl C08.cstep (initCl id p r ms as name)).g.path Ls)
+    (hch : ChainEv (ops.foldl C08.cstep (initCl id p r ms as name)).id (core (ops.foldl C08.cstep (initCl id p r ms as name)).g) Ls)
     (hu : ∀ e ∈ evs Ls, getRec (ops.foldl C08.cstep (initCl id p r ms as name)) e.n = none ∧
       e.cipher ∉ (ops.foldl C08.cstep (initCl id p r ms as name)).g.consumed)
     (hw : LevelWise Ls ls) :
     (run nx (ops.foldl C08.cstep (initCl id p r ms as name)) ls.flatten).g.path =
       (ops.foldl C08.cstep (initCl id p r ms as name)).g.path ++ Ls.map (·.1.cipher) := by
   have h := reachable_hinv id p r ms as name ops
-  exact (chain_bystander _ Ls ls nx hg hr h.sec h.below hch hu hw).1
+  have hn := (C08.sync_inv id p r ms as name ops ha).2.2.2.2.2
+  exact (chain_bystander _ Ls ls nx hg ha hr h.sec h.below hn hch hu hw).1
 
 /-- non-vacuity of `chain_bystander`: three levels, per level a different order with repetitions; the
     hypotheses hold and the client ends on the winners B, fB, gA -/
 example : (run 0 b2 [[eA, eC, eA, eB], [fA, fB, fA], [gA, gA]].flatten).g.path = b2.g.path ++ chain3.map (·.1.cipher) ∧
     (∀ L ∈ chain3, ∀ e ∈ L.2, e ≠ L.1 → ∃ r, getRec (run 0 b2 [[eA, eC, eA, eB], [fA, fB, fA], [gA, gA]].flatten) e.n = some r ∧
       (r.state = 3 ∨ r.state = 4)) := by
-  obtain ⟨h1, _, _, h4⟩ := chain_bystander b2 chain3 [[eA, eC, eA, eB], [fA, fB, fA], [gA, gA]] 0 rfl (by decide)
-    b2_secrets b2_below b2_chain (by decide) (by decide)
+  obtain ⟨h1, _, _, h4⟩ := chain_bystander b2 chain3 [[eA, eC, eA, eB], [fA, fB, fA], [gA, gA]] 0 rfl rfl (by decide)
+    b2_secrets b2_below rfl b2_chain (by decide) (by decide)
   exact ⟨h1, h4⟩
 
 example : (run 0 b2 [[eA, eC, eA, eB], [fA, fB, fA], [gA, gA]].flatten).g.path = [2, 5, 6] ∧
@@ -413,16 +455,20 @@ example : (run 0 b2 [[eA, eC, eA, eB], [fA, fB, fA], [gA, gA]].flatten).g.path =
 
 example : core (run 0 b2 [[eA, eC, eA, eB], [fA, fB, fA], [gA, gA]].flatten).g = [eB, fB, gA].foldl coreStep (core b2.g) ∧
     epochOf (run 0 b2 [[eA, eC, eA, eB], [fA, fB, fA], [gA, gA]].flatten).g.path = epochOf b2.g.path + 3 := by
-  obtain ⟨h1, h2, _⟩ := chain_bystander_data b2 chain3 [[eA, eC, eA, eB], [fA, fB, fA], [gA, gA]] 0 rfl (by decide)
-    b2_secrets b2_below b2_chain (by decide) (by decide)
-  exact ⟨h1, h2⟩
+  obtain ⟨h1, _, _, h4, _⟩ := chain_bystander_data b2 chain3 [[eA, eC, eA, eB], [fA, fB, fA], [gA, gA]] 0 rfl rfl (by decide)
+    b2_secrets b2_below rfl b2_chain (by decide) (by decide)
+  exact ⟨h1, h4⟩
+
+/-- the whole group data after the three levels: name 9, description 6, admins {0,3} (set by B), relays and id unchanged -/
+example : dataOf (run 0 b2 [[eA, eC, eA, eB], [fA, fB, fA], [gA, gA]].flatten).g =
+    { name := 9, desc := 6, admins := [0, 3], relays := [1], nid := 0 } := by decide
 
 /-- non-vacuity of `chain_reachable`: the state reached by a history (here: the delivery of A), and the
     chain that starts there (the child hA of A) -/
 example : (run 0 ([C08.COp.deliver eA 0].foldl C08.cstep (initCl 2 false 5 [0, 1, 2, 3] [0, 1, 3] 1)) [[hA, hA]].flatten).g.path =
     ([C08.COp.deliver eA 0].foldl C08.cstep (initCl 2 false 5 [0, 1, 2, 3] [0, 1, 3] 1)).g.path ++ [(hA, [hA])].map (·.1.cipher) :=
-  chain_reachable 2 false 5 [0, 1, 2, 3] [0, 1, 3] 1 [C08.COp.deliver eA 0] [(hA, [hA])] [[hA, hA]] 0 (by decide) (by decide)
-    ⟨levelEv_of_dec _ _ _ _ (by decide) (by decide) (by decide) (by decide) (by decide), by decide, by decide, trivial⟩
+  chain_reachable 2 false 5 [0, 1, 2, 3] [0, 1, 3] 1 [C08.COp.deliver eA 0] [(hA, [hA])] [[hA, hA]] 0 (by decide) (by decide) (by decide)
+    ⟨levelEv_of_dec _ _ _ (by decide) (by decide) (by decide) (by decide) (by decide) (by decide), by decide, by decide, trivial⟩
     (by decide) (by decide)
 
 /-! ### 4. a chain of forks, many clients -/
@@ -444,7 +490,7 @@ structure PartyOK (g0 : GState) (mp : Nat) (w : Ev) (T : List Ev) (rest : List L
   parent : SameParent p.c.g g0
   maxPast : p.c.maxPast = mp
   first : Covers T p.l
-  chain : ChainEv p.c.id g0.admins (g0.path ++ [w.cipher]) rest
+  chain : ChainEv p.c.id (coreStep (core g0) w) rest
   unseen : ∀ e ∈ evs rest, getRec p.c e.n = none ∧ e.cipher ∉ p.c.g.consumed
   later : LevelWise rest p.ls
 
@@ -462,8 +508,8 @@ theorem chain_converges (ps : List Party) (g0 : GState) (mp : Nat) (w : Ev) (T :
       wc p.final.g [] = wc (chainG mp g0 (w :: rest.map (·.1))) [] := by
     intro p hp
     have ok := h p hp
-    have hch : ChainEv p.c.id p.c.g.admins (p.c.g.path ++ [w.cipher]) rest := by
-      rw [ok.parent.admins, ok.parent.path]; exact ok.chain
+    have hch : ChainEv p.c.id (coreStep (core p.c.g) w) rest := by
+      rw [show core p.c.g = core g0 from ok.parent.core_eq]; exact ok.chain
     have hd := chain_run p.nx p.c w T p.l rest p.ls ok.fork ok.below hmin ok.first hcross hch ok.unseen ok.later
     have hk : ∃ b sw, w.kind = .commit b sw := atFork_kind ok.fork w hmin.1
     obtain ⟨b, sw, hk⟩ := hk
@@ -477,38 +523,41 @@ theorem chain_converges (ps : List Party) (g0 : GState) (mp : Nat) (w : Ev) (T :
   exact ⟨main, fun p hp q hq => ⟨by rw [(main p hp).1, (main q hq).1], by rw [(main p hp).2, (main q hq).2]⟩⟩
 
 /-- the corollaries the property text names, for any two parties: same epoch, same MLS state, same
-    member set, same group data (admins, name, stored record, no pending commit or proposals left) -/
+    member set, same group data — the WHOLE of it (name, description, admins, relays, nostr group id) —,
+    the same stored record (six fields), no pending commit or proposals left, both still active -/
 theorem chain_converges_data (ps : List Party) (g0 : GState) (mp : Nat) (w : Ev) (T : List Ev) (rest : List Level)
     (hmin : IsMin w T) (hcross : ∀ e1 ∈ T, ∀ e2 ∈ evs rest, e1.n ≠ e2.n ∧ e1.cipher ≠ e2.cipher)
     (h : ∀ p ∈ ps, PartyOK g0 mp w T rest p) :
     ∀ p ∈ ps, ∀ q ∈ ps,
       epochOf p.final.g.path = epochOf q.final.g.path ∧ p.final.g.path = q.final.g.path ∧
-      p.final.g.members = q.final.g.members ∧ p.final.g.admins = q.final.g.admins ∧
-      p.final.g.name = q.final.g.name ∧ p.final.g.recEpoch = q.final.g.recEpoch ∧
-      p.final.g.recName = q.final.g.recName ∧ p.final.g.pending = q.final.g.pending ∧
-      p.final.g.props = q.final.g.props ∧ epochOf p.final.g.path = epochOf g0.path + (rest.length + 1) := by
+      p.final.g.members = q.final.g.members ∧ dataOf p.final.g = dataOf q.final.g ∧
+      p.final.g.recEpoch = q.final.g.recEpoch ∧ p.final.g.recName = q.final.g.recName ∧
+      p.final.g.recAdmins = q.final.g.recAdmins ∧ p.final.g.recDesc = q.final.g.recDesc ∧
+      p.final.g.recRelays = q.final.g.recRelays ∧ p.final.g.recNid = q.final.g.recNid ∧
+      p.final.g.pending = q.final.g.pending ∧ p.final.g.props = q.final.g.props ∧
+      p.final.g.active = q.final.g.active ∧
+      epochOf p.final.g.path = epochOf g0.path + (rest.length + 1) ∧
+      core p.final.g = (w :: rest.map (·.1)).foldl coreStep (core g0) := by
   intro p hp q hq
   obtain ⟨hm, hpair⟩ := chain_converges ps g0 mp w T rest hmin hcross h
   obtain ⟨hpath, hg⟩ := hpair p hp q hq
-  obtain ⟨_, f2, f3, f4, f5, f6, _, f8, f9, _⟩ := wc_fields hg
-  refine ⟨by rw [hpath], hpath, f2, f3, f4, f5, f6, f8, f9, ?_⟩
-  rw [(hm p hp).1]; simp [epochOf]; omega
+  obtain ⟨_, f2, f3, f4, f5, f6, f7, f8, f9, f10, f11, _, _, _, f15⟩ := wc_fields hg
+  refine ⟨by rw [hpath], hpath, f2, f3, f4, f5, f6, f7, f8, f9, f10, f11, f15, ?_, ?_⟩
+  · rw [(hm p hp).1]; simp [epochOf]; omega
+  · rw [← core_wc _ [], (hm p hp).2, core_wc, core_chainG]
 
-/-- … and with only the CORE of the start state shared (path, members, admins, name; nothing about
+/-- … and with only the CORE of the start state shared (path, members, group data; nothing about
     stored secrets, retained past epochs, last-message pointer, `max_past_epochs`): every party ends on
     the winners' commits applied in order to that core -/
 theorem chain_converges_core (ps : List Party) (k0 : Core) (w : Ev) (T : List Ev) (rest : List Level)
     (hmin : IsMin w T) (hcross : ∀ e1 ∈ T, ∀ e2 ∈ evs rest, e1.n ≠ e2.n ∧ e1.cipher ≠ e2.cipher)
     (h : ∀ p ∈ ps, AtFork p.c T ∧ Below p.c ∧ core p.c.g = k0 ∧ Covers T p.l ∧
-      ChainEv p.c.id k0.2.2.1 (k0.1 ++ [w.cipher]) rest ∧
+      ChainEv p.c.id (coreStep k0 w) rest ∧
       (∀ e ∈ evs rest, getRec p.c e.n = none ∧ e.cipher ∉ p.c.g.consumed) ∧ LevelWise rest p.ls) :
     ∀ p ∈ ps, core p.final.g = (w :: rest.map (·.1)).foldl coreStep k0 := by
   intro p hp
   obtain ⟨hat, hb, hc, hcov, hch, hu, hlw⟩ := h p hp
-  have hch' : ChainEv p.c.id p.c.g.admins (p.c.g.path ++ [w.cipher]) rest := by
-    have h1 : p.c.g.admins = k0.2.2.1 := by rw [← hc]; rfl
-    have h2 : p.c.g.path = k0.1 := by rw [← hc]; rfl
-    rw [h1, h2]; exact hch
+  have hch' : ChainEv p.c.id (coreStep (core p.c.g) w) rest := by rw [hc]; exact hch
   have hd := chain_run p.nx p.c w T p.l rest p.ls hat hb hmin hcov hcross hch' hu hlw
   show core (run p.nx p.c (p.l ++ p.ls.flatten)).g = _
   rw [← core_wc _ [], hd.g, core_wc, core_chainG, hc]
@@ -520,9 +569,9 @@ def p1 : Party := { c := b2, l := [eA, eC, eA, eB], ls := [[fA, fB, fA], [gA, gA
 def p2 : Party := { c := k1, l := [eB, eA, eC, eA], ls := [[fB, fA], [gA]], nx := 0 }
 
 theorem p1_ok : PartyOK b2.g 5 eB T1 later p1 :=
-  ⟨b2_atFork, b2_below, by constructor <;> rfl, rfl, by decide, later_chain 2 (by decide), by decide, by decide⟩
+  ⟨b2_atFork, b2_below, by constructor <;> rfl, rfl, by decide, later_chain2, by decide, by decide⟩
 theorem p2_ok : PartyOK b2.g 5 eB T1 later p2 :=
-  ⟨k1_atFork, k1_below, by constructor <;> decide, rfl, by decide, later_chain 1 (by decide), by decide, by decide⟩
+  ⟨k1_atFork, k1_below, by constructor <;> decide, rfl, by decide, later_chain1, by decide, by decide⟩
 
 example : p1.final.g.path = p2.final.g.path ∧ wc p1.final.g [] = wc p2.final.g [] :=
   (chain_converges [p1, p2] b2.g 5 eB T1 later (by decide) (by decide)
@@ -532,11 +581,11 @@ example : p1.final.g.path = p2.final.g.path ∧ wc p1.final.g [] = wc p2.final.g
       · exact p1_ok
       · exact p2_ok)).2 p1 (by simp) p2 (by simp)
 
-example : p1.final.g.path = [2, 5, 6] ∧ p2.final.g.path = [2, 5, 6] ∧ p2.final.g.name = 9 ∧ p2.final.g.pending = none := by decide
+example : p1.final.g.path = [2, 5, 6] ∧ p2.final.g.path = [2, 5, 6] ∧ p2.final.g.name = 9 ∧ p2.final.g.admins = [0, 3] ∧ p2.final.g.pending = none := by decide
 
-example : p1.final.g.members = p2.final.g.members ∧ p1.final.g.name = p2.final.g.name ∧
+example : p1.final.g.members = p2.final.g.members ∧ dataOf p1.final.g = dataOf p2.final.g ∧
     epochOf p1.final.g.path = epochOf b2.g.path + 3 := by
-  obtain ⟨_, _, h3, _, h5, _, _, _, _, h10⟩ := chain_converges_data [p1, p2] b2.g 5 eB T1 later (by decide) (by decide)
+  obtain ⟨_, _, h3, h5, _, _, _, _, _, _, _, _, _, h10, _⟩ := chain_converges_data [p1, p2] b2.g 5 eB T1 later (by decide) (by decide)
     (fun p hp => by
       simp only [List.mem_cons, List.not_mem_nil, or_false] at hp
       rcases hp with rfl | rfl
@@ -549,59 +598,83 @@ example : core p2.final.g = [eB, fB, gA].foldl coreStep (core b2.g) :=
     (fun p hp => by
       simp only [List.mem_cons, List.not_mem_nil, or_false] at hp
       rcases hp with rfl | rfl
-      · exact ⟨b2_atFork, b2_below, rfl, by decide, later_chain 2 (by decide), by decide, by decide⟩
-      · exact ⟨k1_atFork, k1_below, by decide, by decide, later_chain 1 (by decide), by decide, by decide⟩) p2 (by simp)
+      · exact ⟨b2_atFork, b2_below, rfl, by decide, later_chain2, by decide, by decide⟩
+      · exact ⟨k1_atFork, k1_below, by decide, by decide, later_chain1, by decide, by decide⟩) p2 (by simp)
 
 /-! ### 5a. stale events are refused and may be interleaved freely -/
 
 /-- **stale_refused**: an event created in a state that is not a prefix of the client's MLS path — on a
-    branch that lost, or ahead of the client — fails the outer layer (every stored exporter secret belongs
-    to a prefix of the client's path: `SecretsOK`).  Delivering it changes nothing but its OWN dedup
-    record (Failed, or already blocking) and the cache of the current epoch's exporter secret: same
-    projection (epoch, MLS state, members, group data, messages), same snapshots, same other records. -/
-theorem stale_refused (c : Cl) (e : Ev) (nx : Nat) (hg : c.hasGroup = true) (hs : SecretsOK c.g)
+    branch that lost, or ahead of the client — never gets past the outer layer (every stored exporter secret
+    belongs to a prefix of the client's path: `SecretsOK`), whether or not the client holds the group, finds it
+    by the event's `h` tag, or was evicted.  Delivering it changes nothing but its OWN dedup record (Failed, or
+    already blocking) and the cache of the current epoch's exporter secret: same projection (epoch, MLS state,
+    members, group data, stored record, messages), same snapshots, same other records.  The answer is
+    Unprocessable / PreviouslyFailed (blocked), GroupNotFound (not routed), ExportSecret (evicted) or Message;
+    for a routed event at an active group: Unprocessable or Message. -/
+theorem stale_refused (c : Cl) (e : Ev) (nx : Nat) (hs : SecretsOK c.g)
     (hst : ¬ e.path <+: c.g.path) :
     proj (deliver c e nx).1 = proj c ∧
     ((deliver c e nx).1.g = c.g ∨ (deliver c e nx).1.g = ensureSecret c.g) ∧
     (deliver c e nx).1.mgr = c.mgr ∧
     (∀ m, m ≠ e.n → getRec (deliver c e nx).1 m = getRec c m) ∧
     (∃ r, getRec (deliver c e nx).1 e.n = some r ∧ (r.state = 3 ∨ r.state = 4)) ∧
-    ((deliver c e nx).2 = .unprocessable ∨ (deliver c e nx).2 = .err eMessage) := by
-  have hq := quiet_stale 3 nx c e hg (secretsOK_ensure _ hs) hst
+    ((deliver c e nx).2 = .unprocessable ∨ (deliver c e nx).2 = .previouslyFailed ∨
+      (deliver c e nx).2 = .err eGroupNotFound ∨ (deliver c e nx).2 = .err eExportSecret ∨
+      (deliver c e nx).2 = .err eMessage) ∧
+    (routes c e = true → c.g.active = true →
+      (deliver c e nx).2 = .unprocessable ∨ (deliver c e nx).2 = .err eMessage) := by
+  have hq := quiet_stale 3 nx c e (secretsOK_ensure _ hs) hst
+  have hcase := stale_deliverN 3 nx c e (secretsOK_ensure _ hs) hst
+  have hrf : ∀ (x : Cl) (b : Bool), ∃ r, getRec (recordFailure x e.n b none) e.n = some r ∧ (r.state = 3 ∨ r.state = 4) :=
+    fun x b => ⟨_, by simp only [getRec, recordFailure, setRec]; exact Store.alookup_ainsert_self _ _ _, Or.inl rfl⟩
   have hproj : proj (deliver c e nx).1 = proj c := by
-    rcases stale_deliverN 3 nx c e hg (secretsOK_ensure _ hs) hst with h | h
-    · show proj (deliverN 3 nx c e).1 = _
-      rw [h.1]
-    · show proj (deliverN 3 nx c e).1 = _
-      rw [h]; simp
-  refine ⟨hproj, hq.g, hq.mgr, hq.recs, ?_, ?_⟩
-  · rcases stale_deliverN 3 nx c e hg (secretsOK_ensure _ hs) hst with h | h
-    · obtain ⟨h1, r, hr, h34⟩ := h
-      exact ⟨r, by show getRec (deliverN 3 nx c e).1 e.n = _; rw [h1]; exact hr, h34⟩
-    · refine ⟨_, by show getRec (deliverN 3 nx c e).1 e.n = _; rw [h]; simp only [getRec, recordFailure, setRec]; exact Store.alookup_ainsert_self _ _ _, Or.inl rfl⟩
-  · rcases stale_deliverN 3 nx c e hg (secretsOK_ensure _ hs) hst with h | h
-    · left
-      obtain ⟨_, r, hr, h34⟩ := h
-      obtain ⟨retry, hd⟩ := deliverN_once 3 nx c e
-      show (deliverN 3 nx c e).2 = _
-      rw [hd]
-      rcases h34 with x | x <;> simp [deliverOnce, hr, x, hg]
-    · right
-      show (deliverN 3 nx c e).2 = _
-      rw [h]
+    show proj (deliverN 3 nx c e).1 = _
+    rcases hcase with h | h | h | h
+    · rw [h.1]
+    · rw [h.2]; simp
+    · rw [h.2.2]; simp
+    · rw [h.2.2]; simp
+  refine ⟨hproj, hq.g, hq.mgr, hq.recs, ?_, ?_, ?_⟩
+  · show ∃ r, getRec (deliverN 3 nx c e).1 e.n = some r ∧ _
+    rcases hcase with h | h | h | h
+    · obtain ⟨h1, r, hr, h34, _⟩ := h
+      exact ⟨r, by rw [h1]; exact hr, h34⟩
+    · rw [h.2]; exact hrf c false
+    · rw [h.2.2]; exact hrf c true
+    · rw [h.2.2]; exact hrf (withSecret c) true
+  · show (deliverN 3 nx c e).2 = _ ∨ (deliverN 3 nx c e).2 = _ ∨ (deliverN 3 nx c e).2 = _ ∨ (deliverN 3 nx c e).2 = _ ∨
+      (deliverN 3 nx c e).2 = _
+    rcases hcase with h | h | h | h
+    · obtain ⟨_, _, _, _, h5⟩ := h
+      rw [h5]
+      by_cases hr : routes c e = true
+      · simp [hr]
+      · simp [hr]
+    · rw [h.2]; simp
+    · rw [h.2.2]; simp
+    · rw [h.2.2]; simp
+  · intro hr ha
+    show (deliverN 3 nx c e).2 = _ ∨ (deliverN 3 nx c e).2 = _
+    rcases hcase with h | h | h | h
+    · obtain ⟨_, _, _, _, h5⟩ := h
+      rw [h5]; simp [hr]
+    · rw [hr] at h; cases h.1
+    · rw [ha] at h; cases h.2.1
+    · rw [h.2.2]; simp
 
 /-- non-vacuity of `stale_refused`: the child hA of the loser A, offered after the client moved to B -/
 example : proj (deliver (run 0 b2 [eA, eB]) hA 0).1 = proj (run 0 b2 [eA, eB]) :=
-  (stale_refused (run 0 b2 [eA, eB]) hA 0 (by decide)
-    (fork_restores b2 T1 [eA, eB] 0 b2_atFork b2_secrets b2_below (by decide) (by decide)).2.2.1 (by decide)).1
+  (stale_refused (run 0 b2 [eA, eB]) hA 0
+    (fork_restores b2 T1 [eA, eB] 0 b2_atFork b2_below (by decide) (by decide)).2.2.2.1 (by decide)).1
 
 /-- **chain_bystander_stale**: the chain theorem for schedules that, inside every level's delivery list,
     interleave any number of stale events (`StalePath`: created in a state that is neither a prefix of the
     level's parent path nor a child of it by one of the level's commits — e.g. descendants of a branch
     that lost at an earlier level), with event numbers of their own -/
 theorem chain_bystander_stale (c : Cl) (Ls : List Level) (ls : List (List Ev)) (nx : Nat)
-    (hg : c.hasGroup = true) (hr : 1 ≤ c.retention) (hsec : SecretsOK c.g) (hbelow : Below c)
-    (hch : ChainEv c.id c.g.admins c.g.path Ls)
+    (hg : c.hasGroup = true) (ha : c.g.active = true) (hr : 1 ≤ c.retention) (hsec : SecretsOK c.g) (hbelow : Below c)
+    (hn : c.g.recNid = c.g.nid)
+    (hch : ChainEv c.id (core c.g) Ls)
     (hu : ∀ e ∈ evs Ls, getRec c e.n = none ∧ e.cipher ∉ c.g.consumed)
     (hw : LevelWiseS (evs Ls) c.g.path Ls ls) :
     (run nx c ls.flatten).g.path = c.g.path ++ Ls.map (·.1.cipher) ∧
@@ -609,13 +682,13 @@ theorem chain_bystander_stale (c : Cl) (Ls : List Level) (ls : List (List Ev)) (
     (∀ L ∈ Ls, (getRec (run nx c ls.flatten) L.1.n).map (·.state) = some 2) ∧
     (∀ L ∈ Ls, ∀ e ∈ L.2, e ≠ L.1 →
       ∃ r, getRec (run nx c ls.flatten) e.n = some r ∧ (r.state = 3 ∨ r.state = 4)) := by
-  have h := chain_rest_mixed nx (evs Ls) Ls c ls ⟨hg, hr, hsec, hbelow⟩ hch (fun _ h => h) hu hw
+  have h := chain_rest_mixed nx (evs Ls) Ls c ls ⟨hg, ha, hr, hsec, hbelow, hn⟩ hch (fun _ h => h) hu hw
   exact ⟨h.path, h.g, h.win, fun L hL e he hne => h.lose L hL e he hne (chainEv_foreign hch L hL e he)⟩
 
 /-- non-vacuity: `hA` offered before, between and after the commits of levels 2 and 3 -/
 example : (run 0 b2 [[eA, eC, eA, eB], [hA, fA, fB, hA, fA], [gA, hA, gA]].flatten).g.path = b2.g.path ++ chain3.map (·.1.cipher) :=
-  (chain_bystander_stale b2 chain3 [[eA, eC, eA, eB], [hA, fA, fB, hA, fA], [gA, hA, gA]] 0 rfl (by decide)
-    b2_secrets b2_below b2_chain (by decide) (by decide)).1
+  (chain_bystander_stale b2 chain3 [[eA, eC, eA, eB], [hA, fA, fB, hA, fA], [gA, hA, gA]] 0 rfl rfl (by decide)
+    b2_secrets b2_below rfl b2_chain (by decide) (by decide)).1
 
 example : (run 0 b2 [[eA, eC, eA, eB], [hA, fA, fB, hA, fA], [gA, hA, gA]].flatten).g.path = [2, 5, 6] ∧
     (getRec (run 0 b2 [[eA, eC, eA, eB], [hA, fA, fB, hA, fA], [gA, hA, gA]].flatten) 7).map (·.state) = some 3 ∧
@@ -636,7 +709,7 @@ structure PartyOKS (g0 : GState) (mp : Nat) (w : Ev) (T : List Ev) (rest : List 
   maxPast : p.c.maxPast = mp
   first : ∀ e ∈ p.l, e ∈ T ∨ (StalePath g0.path T e ∧ ∀ a ∈ T ++ evs rest, e.n ≠ a.n)
   cover : ∀ e ∈ T, e ∈ p.l
-  chain : ChainEv p.c.id g0.admins (g0.path ++ [w.cipher]) rest
+  chain : ChainEv p.c.id (coreStep (core g0) w) rest
   unseen : ∀ e ∈ evs rest, getRec p.c e.n = none ∧ e.cipher ∉ p.c.g.consumed
   later : LevelWiseS (T ++ evs rest) (g0.path ++ [w.cipher]) rest p.ls
 
@@ -651,8 +724,8 @@ theorem chain_converges_stale (ps : List Party) (g0 : GState) (mp : Nat) (w : Ev
       wc p.final.g [] = wc (chainG mp g0 (w :: rest.map (·.1))) [] := by
     intro p hp
     have ok := h p hp
-    have hch : ChainEv p.c.id p.c.g.admins (p.c.g.path ++ [w.cipher]) rest := by
-      rw [ok.parent.admins, ok.parent.path]; exact ok.chain
+    have hch : ChainEv p.c.id (coreStep (core p.c.g) w) rest := by
+      rw [show core p.c.g = core g0 from ok.parent.core_eq]; exact ok.chain
     have hd := chain_run_mixed p.nx (T ++ evs rest) p.c w T p.l rest p.ls ok.fork ok.below hmin
       (by rw [ok.parent.path]; exact ok.first) ok.cover (fun _ h => h) hcross hch ok.unseen
       (by rw [ok.parent.path]; exact ok.later)
@@ -676,8 +749,8 @@ example : p1s.final.g.path = p2s.final.g.path ∧ wc p1s.final.g [] = wc p2s.fin
     (fun p hp => by
       simp only [List.mem_cons, List.not_mem_nil, or_false] at hp
       rcases hp with rfl | rfl
-      · exact ⟨b2_atFork, b2_below, by constructor <;> rfl, rfl, by decide, by decide, later_chain 2 (by decide), by decide, by decide⟩
-      · exact ⟨k1_atFork, k1_below, by constructor <;> decide, rfl, by decide, by decide, later_chain 1 (by decide), by decide, by decide⟩)).2
+      · exact ⟨b2_atFork, b2_below, by constructor <;> rfl, rfl, by decide, by decide, later_chain2, by decide, by decide⟩
+      · exact ⟨k1_atFork, k1_below, by constructor <;> decide, rfl, by decide, by decide, later_chain1, by decide, by decide⟩)).2
     p1s (by simp) p2s (by simp)
 
 example : p1s.final.g.path = [2, 5, 6] ∧ p2s.final.g.path = [2, 5, 6] := by decide
@@ -690,7 +763,8 @@ example : p1s.final.g.path = [2, 5, 6] ∧ p2s.final.g.path = [2, 5, 6] := by de
     epochs, applies `b`, and ends in `b`'s child of the parent state; `a` and `a'` are EpochInvalidated
     (the dedup step refuses them from now on). -/
 theorem depth2_rollback (c : Cl) (a b a' : Ev) (nx : Nat)
-    (hg : c.hasGroup = true) (hr : 2 ≤ c.retention) (hsec : SecretsOK c.g) (hbelow : Below c)
+    (hg : c.hasGroup = true) (ha : c.g.active = true) (hr : 2 ≤ c.retention) (hsec : SecretsOK c.g) (hbelow : Below c)
+    (hnid : c.g.recNid = c.g.nid)
     (hS : Siblings c [a, b]) (hab : a ≠ b) (hlt : klt (key b) (key a) = true)
     (hc : ChildOf c a a') (hn : a'.n ≠ a.n ∧ a'.n ≠ b.n) (hci : a'.cipher ≠ a.cipher) :
     (run nx c [a, a', b]).g.path = c.g.path ++ [b.cipher] ∧
@@ -698,16 +772,18 @@ theorem depth2_rollback (c : Cl) (a b a' : Ev) (nx : Nat)
     (getRec (run nx c [a, a', b]) b.n).map (·.state) = some 2 ∧
     (getRec (run nx c [a, a', b]) a.n).map (·.state) = some 4 ∧
     (getRec (run nx c [a, a', b]) a'.n).map (·.state) = some 4 := by
-  obtain ⟨hcf, hrb, hra, hra'⟩ := depth2_core c a b a' nx hg hr hsec hbelow hS hab hlt hc hn hci
-  have hb : Base c := base_of c hg (by omega) hsec hbelow.noFork
-  have sb := (sibs_of c [a, b] hS).sib b (by simp)
+  obtain ⟨hcf, hrb, hra, hra'⟩ := depth2_core c a b a' nx hg ha hr hsec hbelow hnid hS hab hlt hc hn hci
+  have hb : Base c := base_of c hg ha (by omega) hsec hbelow.noFork
+  have sb := (sibs_of c [a, b] hnid hS).sib b (by simp)
   exact ⟨cform_path hb sb.com hcf, by rw [hcf.g]; rfl, by rw [hrb]; rfl, hra, hra'⟩
 
 /-- non-vacuity: A (ts 20), its child hA, then the better B (ts 19) -/
 example : (run 0 b2 [eA, hA, eB]).g.path = b2.g.path ++ [eB.cipher] :=
-  (depth2_rollback b2 eA eB hA 0 rfl (by decide) b2_secrets b2_below
-    (siblings_of_dec b2 [eA, eB] (by decide) (by decide) (by decide) (by decide) (by decide) (by decide))
-    (by decide) (by decide) ⟨by decide, ⟨_, _, rfl, by decide⟩, by decide, by decide, by decide, by decide⟩
+  (depth2_rollback b2 eA eB hA 0 rfl rfl (by decide) b2_secrets b2_below rfl
+    (siblings_of_dec b2 [eA, eB] rfl (by decide) (by decide) (by decide) (by decide) (by decide) (by decide) (by decide))
+    (by decide) (by decide)
+    ⟨by decide, ⟨_, _, rfl, by decide⟩, by decide, by decide, by decide, by decide, by decide,
+      keepsIdB_spec (by decide), keepsMeB_spec (by decide)⟩
     (by decide) (by decide)).1
 
 /-- the retention hypothesis is needed ("forks up to the configured snapshot-retention depth"): with
@@ -723,8 +799,8 @@ theorem witness_depth2_retention :
     changes), it ends on the path of the MIP-03 winners -/
 def C01_full : Prop :=
   ∀ (c : Cl) (Ls : List Level) (l : List Ev) (nx : Nat),
-    c.hasGroup = true → 1 ≤ c.retention → SecretsOK c.g → Below c →
-    ChainEv c.id c.g.admins c.g.path Ls →
+    c.hasGroup = true → c.g.active = true → 1 ≤ c.retention → SecretsOK c.g → Below c → c.g.recNid = c.g.nid →
+    ChainEv c.id (core c.g) Ls →
     (∀ e ∈ evs Ls, getRec c e.n = none ∧ e.cipher ∉ c.g.consumed) →
     (∀ e ∈ l, e ∈ evs Ls) → (∀ e ∈ evs Ls, e ∈ l) →
     (run nx c l).g.path = c.g.path ++ Ls.map (·.1.cipher)
@@ -738,18 +814,18 @@ theorem witness_chain_out_of_order :
 
 theorem C01_full_false : ¬ C01_full := by
   intro h
-  have := h b2 [(eB, [eB]), (fB, [fB])] [fB, eB, fB] 0 rfl (by decide) b2_secrets b2_below
-    ⟨levelEv_of_dec _ _ _ _ (by decide) (by decide) (by decide) (by decide) (by decide), by decide, by decide,
-     levelEv_of_dec _ _ _ _ (by decide) (by decide) (by decide) (by decide) (by decide), by decide, by decide, trivial⟩
+  have := h b2 [(eB, [eB]), (fB, [fB])] [fB, eB, fB] 0 rfl rfl (by decide) b2_secrets b2_below rfl
+    ⟨levelEv_of_dec _ _ _ (by decide) (by decide) (by decide) (by decide) (by decide) (by decide), by decide, by decide,
+     levelEv_of_dec _ _ _ (by decide) (by decide) (by decide) (by decide) (by decide) (by decide), by decide, by decide, trivial⟩
     (by decide) (by decide) (by decide)
   rw [witness_chain_out_of_order.1] at this
   revert this; decide
 
 /-- … while the level-by-level schedule over the same events converges (`chain_bystander` applies) -/
 example : (run 0 b2 [[eB], [fB, fB]].flatten).g.path = b2.g.path ++ [eB.cipher, fB.cipher] :=
-  (chain_bystander b2 [(eB, [eB]), (fB, [fB])] [[eB], [fB, fB]] 0 rfl (by decide) b2_secrets b2_below
-    ⟨levelEv_of_dec _ _ _ _ (by decide) (by decide) (by decide) (by decide) (by decide), by decide, by decide,
-     levelEv_of_dec _ _ _ _ (by decide) (by decide) (by decide) (by decide) (by decide), by decide, by decide, trivial⟩
+  (chain_bystander b2 [(eB, [eB]), (fB, [fB])] [[eB], [fB, fB]] 0 rfl rfl (by decide) b2_secrets b2_below rfl
+    ⟨levelEv_of_dec _ _ _ (by decide) (by decide) (by decide) (by decide) (by decide) (by decide), by decide, by decide,
+     levelEv_of_dec _ _ _ (by decide) (by decide) (by decide) (by decide) (by decide) (by decide), by decide, by decide, trivial⟩
     (by decide) (by decide)).1
 
 end MdkVerif.Props.C01Chain
